@@ -15,6 +15,7 @@ THEOREMS = {
 def do_regen(ctx):
     regen.grammar()
     regen.frontend()
+    regen.visitors()   # the model driver walks the tree with the C08 listener model to find errors reported by the ACTIVE visitor's own methods
     regen.witness("C09", "C09Witness.lean", ["Dawgs.Spec.C09"])
 
 
